@@ -1029,7 +1029,7 @@ def depth_for(spec, tier, opts):
     extra = sum(1 for x in spec.nf if x == 2) + sum(spec.sub)
     if tier == "quick":
         return 2 if (n == 4 and owners >= 3) else 3
-    return 4 if ((n <= 3 and owners + extra <= 3) or owners + extra <= 2) else 3
+    return 4 if owners + extra <= 2 else 3
 
 
 def cost_estimate(spec, depth):
@@ -1187,7 +1187,7 @@ def run(ctx):
                     seeding=["eager", "lazy"], values="a in {default,1,2}, b in {default,1}",
                     constructor="every class x init in {absent, None, every set in the pool} x <=2 namespaces",
                     depth={"quick": "3 (2 for 4-class programs with >= 3 owners; no variants for 4-class programs)",
-                           "thorough": "4 (3 when owners + variant extras exceed 3, or exceed 2 in 4-class programs)"}[tier],
+                           "thorough": "4 when owners + variant extras <= 2, else 3"}[tier],
                     unmerged={"quick": "depth 2, programs with 1 class or 2 classes and <= 1 owner",
                               "thorough": "depth 3 for 1-class programs, depth 2 for 2-class programs and for 3-class "
                                           "programs with <= 2 owners/variant extras"}[tier]))
